@@ -692,6 +692,7 @@ func scenAPI(out *scenOut, r *rng, thorough bool) {
 	for _, how := range []string{"ctx-before-run", "kill-before-run"} {
 		endedBeforeItBegan(out, how)
 	}
+	runAgain(out)
 	// "Before the program starts, Send blocks until it is running"
 	ctl := newRecCtl()
 	p := tea.NewProgram(recModel{c: ctl}, tea.WithInput(nil), tea.WithOutput(&safeBuffer{}), tea.WithoutSignalHandler())
@@ -1046,6 +1047,73 @@ func endedBeforeItBegan(out *scenOut, how string) {
 	}
 	if len(stuck) > 0 {
 		out.fail(finding{Property: "C13", Class: "new", What: "API calls never return although Run has returned (program ended before it began)", Input: desc,
+			Expected: "every call returns once the program has ended", Observed: strings.Join(stuck, ",")})
+	}
+}
+
+// runAgain: Run is called a second time on a Program that has already run to completion. The
+// second Run ends at once (the context is already cancelled); the program has ended - again -
+// and every API call returns, Wait included (callers that entered Wait after the second Run
+// began, and callers arriving after it returned).
+func runAgain(out *scenOut) {
+	ctl := newRecCtl()
+	p := tea.NewProgram(recModel{c: ctl}, tea.WithInput(nil), tea.WithOutput(&safeBuffer{}), tea.WithoutSignalHandler())
+	desc := "Run to completion (Quit), three Waits; Run again on the same Program; Wait x3 / Send / Quit / Println / Printf afterwards"
+	first := make(chan error, 1)
+	go func() { _, err := p.Run(); first <- err }()
+	waitFor(2*time.Second, func() bool { return ctl.log.has("view-exit", "") })
+	p.Quit()
+	select {
+	case <-first:
+	case <-time.After(4 * time.Second):
+		out.fail(finding{Property: "C04", Class: "new", What: "Run does not return after Quit", Input: desc})
+		p.Kill()
+		return
+	}
+	type call struct {
+		name string
+		done chan struct{}
+	}
+	var calls []call
+	start := func(name string, f func()) {
+		c := call{name, make(chan struct{})}
+		calls = append(calls, c)
+		go func() { f(); close(c.done) }()
+	}
+	for i := 0; i < 3; i++ {
+		start(fmt.Sprintf("wait#%d@after-first-run", i), p.Wait)
+	}
+	second := make(chan error, 1)
+	go func() { _, err := p.Run(); second <- err }()
+	out.record("run-again", desc)
+	select {
+	case err := <-second:
+		if got := errClass(err); got != "killed" {
+			out.fail(finding{Property: "C04", Class: "new", What: "wrong result of a second Run on a finished Program", Input: desc, Expected: "killed", Observed: got})
+		}
+	case <-time.After(4 * time.Second):
+		out.fail(finding{Property: "C04", Class: "new", What: "a second Run on a finished Program does not return", Input: desc, Observed: goroutineDump()})
+		return
+	}
+	for i := 0; i < 3; i++ {
+		start(fmt.Sprintf("wait#%d@after-second-run", i), p.Wait)
+	}
+	start("send", func() { p.Send(userMsg{7, 2}) })
+	start("quit", p.Quit)
+	start("println", func() { p.Println("x") })
+	start("printf", func() { p.Printf("%d", 1) })
+	deadline := time.After(3 * time.Second)
+	var stuck []string
+	for _, c := range calls {
+		select {
+		case <-c.done:
+		case <-deadline:
+			stuck = append(stuck, c.name)
+			deadline = time.After(time.Millisecond)
+		}
+	}
+	if len(stuck) > 0 {
+		out.fail(finding{Property: "C13", Class: "new", What: "API calls never return although Run has returned (Run called again on a finished Program)", Input: desc,
 			Expected: "every call returns once the program has ended", Observed: strings.Join(stuck, ",")})
 	}
 }
